@@ -14,7 +14,7 @@ COQ_CHECK = "Dom.check_case"
 COQ_CASE_TYPE = "Dom.case"
 COQ_BRANCHES = ("Dom.case_branches", "Dom.n_branches")
 SHARD = 150
-RULE = ("instances of 8 registered RegDom (and 4 frozen IceRegDom) dataclasses (Leaf, Mid with a Leaf field, Top with Mid and Leaf fields and "
+RULE = ("instances of 8 registered RegDom, 4 frozen IceRegDom, a TymeDom and an IceTymeDom subclass holding a nested data object (defined under postponed annotations) and hio's own Bag / IceBag dataclasses (Leaf, Mid with a Leaf field, Top with Mid and Leaf fields and "
         "int/str/list/dict/Any fields, Opt with `Leaf | None` and `list[Leaf]` fields; each defined with real and with "
         "postponed string annotations); field values drawn from None/bool/int (up to 64 bits)/finite float/str (ASCII, "
         "Latin, CJK, astral)/list/dict(str keys) to depth 3; dataclass-typed fields hold an instance, None, or (10%) an "
@@ -100,6 +100,37 @@ class C28IceOpt(IceRegDom):
     leaves: list[C28IceLeaf] = None
     v: Any = None
 '''
+# TymeDom / IceTymeDom subclasses with a nested data object, defined under postponed annotations the way hio's own
+# bagging / canning modules are (their InitVar[None|Callable] annotations must stay resolvable for get_type_hints)
+TYME_SRC = '''
+from __future__ import annotations
+from dataclasses import dataclass
+from typing import Any
+from hio.help.doming import RegDom, TymeDom, IceTymeDom, registerify, namify
+
+@registerify
+@dataclass
+class C28TPoint(RegDom):
+    a: Any = None
+    b: Any = None
+
+@namify
+@registerify
+@dataclass
+class C28TBag(TymeDom):
+    leaf: C28TPoint = None
+    v: Any = None
+
+    def __hash__(self):
+        return hash(self._astuple())
+
+@namify
+@registerify
+@dataclass(frozen=True)
+class C28TIce(IceTymeDom):
+    leaf: C28TPoint = None
+    v: Any = None
+'''
 # class number -> (name stem, [(field, dataclass number or None)])
 SCHEMA = []
 for off in (0, 4):
@@ -112,8 +143,14 @@ SCHEMA += [("IceLeaf", [("a", None), ("b", None)]),
            ("IceMid", [("leaf", 0), ("v", None)]),
            ("IceTop", [("mid", 9), ("leaf", 8), ("w", None), ("n", None), ("s", None), ("l", None), ("m", None)]),
            ("IceOpt", [("leaf", None), ("leaves", None), ("v", None)])]
+# 12..14: TymeDom family under postponed annotations; 15, 16: hio's own Bag and IceBag (one Any field)
+SCHEMA += [("TPoint", [("a", None), ("b", None)]),
+           ("TBag", [("leaf", 12), ("v", None)]),
+           ("TIce", [("leaf", 12), ("v", None)]),
+           ("Bag", [("value", None)]),
+           ("IceBag", [("value", None)])]
 NCLS = len(SCHEMA)
-FROZEN = {8, 9, 10, 11}
+FROZEN = {8, 9, 10, 11, 14, 16}
 _classes = None
 
 
@@ -131,6 +168,12 @@ def classes():
         sys.modules["c28_ice"] = m
         exec(compile(ICE_SRC, "c28_ice", "exec"), m.__dict__)
         out += [getattr(m, f"C28Ice{stem}") for stem in ("Leaf", "Mid", "Top", "Opt")]
+        m = types.ModuleType("c28_tyme")
+        sys.modules["c28_tyme"] = m
+        exec(compile(TYME_SRC, "c28_tyme", "exec"), m.__dict__)
+        out += [m.C28TPoint, m.C28TBag, m.C28TIce]
+        from hio.base.hier.bagging import Bag, IceBag
+        out += [Bag, IceBag]
         _classes = out
     return _classes
 
@@ -362,6 +405,13 @@ def directed():
         {"obj": obj(1, leaf=mleaf, v=["l", []]), "mut": [[], "attr", "v", ["i", 3]]},
         {"obj": obj(5, leaf=obj(4, a=["l", []]), v=["n"]), "mut": [[["f", "leaf"], ["f", "a"]], "append", ["i", 1]]},
     ]
+    # TymeDom family under postponed annotations, and hio's own Bag / IceBag
+    tp = obj(12, a=["i", 5], b=["s", "é"])
+    out += [{"obj": tp}, {"obj": obj(13, leaf=tp, v=["l", [["i", 1]]])}, {"obj": obj(14, leaf=tp, v=["d", [["k", ["n"]]]])},
+            {"obj": obj(13, leaf=["n"], v=["n"])}, {"obj": obj(15, value=["l", [["i", 1], ["s", "é"]]])},
+            {"obj": obj(16, value=["d", [["k", ["f", (1.5).hex()]]]])}, {"obj": obj(15, value=tp)},
+            {"obj": obj(13, leaf=tp, v=["l", []]), "mut": [[["f", "leaf"]], "attr", "a", ["i", 6]]},
+            {"obj": obj(14, leaf=tp, v=["l", []]), "mut": [[["f", "v"]], "append", ["i", 6]]}]
     leaf = obj(4, a=["i", 5], b=["s", "é"])
     for early in ("absent", "null", "control"):
         out.append({"obj": obj(5, leaf=leaf, v=["i", 2]), "early": early})
@@ -442,7 +492,7 @@ def apply_mutation(x, mut):
 def mutation_cases(rng, k):
     out = []
     while len(out) < k:
-        c = rng.choice([8, 9, 10, 10, 11, 9, 10, rng.randrange(NCLS)])
+        c = rng.choice([8, 9, 10, 10, 11, 9, 10, 13, 14, 16, rng.randrange(NCLS)])
         o = rand_obj(rng, c, 0.0, 0.15 if c % 4 == 3 else 0.0)
         m = rand_mutation(rng, o)
         if m is not None:
